@@ -83,6 +83,25 @@ func genC16(t *rapid.T) c16Case {
 		start = rapid.Int64Range(0, room).Draw(t, "start")
 	}
 	c.MSIN = fmt.Sprintf("%0*d", l, start)
+	if rapid.IntRange(0, 9).Draw(t, "binary_boundary") == 0 {
+		// the IMSI read as ONE number crosses a power of two (2^31, 2^32, 2^53, 2^63 would be the places where an
+		// implementation that converts the digits to a machine integer may wrap or lose precision); populations large
+		// enough that identifiers derived from that number can collide across the boundary
+		c.N = rapid.SampledFrom([]int{2, 300, 7300, 9000, 10000}).Draw(t, "bb_n")
+		bit := uint(rapid.SampledFrom([]int{31, 32, 32, 33, 40, 48}).Draw(t, "bb_bit"))
+		mult := rapid.Int64Range(1, (999999999999999>>bit)).Draw(t, "bb_mult")
+		first := mult<<bit - int64(rapid.IntRange(1, c.N-1).Draw(t, "bb_before"))
+		digits := fmt.Sprintf("%015d", first)
+		if first > 0 && len(digits) == 15 {
+			mncLen := rapid.IntRange(2, 3).Draw(t, "bb_mnclen")
+			msin := digits[3+mncLen:]
+			var v int64
+			fmt.Sscanf(msin, "%d", &v)
+			if v+int64(c.N) <= pow10(len(msin)) {
+				c.MCC, c.MNC, c.MSIN = digits[:3], digits[3:3+mncLen], msin
+			}
+		}
+	}
 	c.K = genHexKey(t, "k")
 	switch rapid.IntRange(0, 3).Draw(t, "cred") {
 	case 0:
